@@ -256,3 +256,5 @@ func (e *ctlEnv) ask(line string) (string, error) {
 }
 
 func bubbleWait() { synctest.Wait() }
+
+func controlsvcNew(n *netceptor.Netceptor) *controlsvc.Server { return controlsvc.New(true, n) }
